@@ -208,6 +208,17 @@ def run_case(ctx, pydsdl, seed, nrep, workdir):
         outside = [i for i in range(n) if i not in clos]
         if call["api"] == "read_namespace":
             outside = [i for i in outside if ns["defs"][i]["root"] != 0]
+        if outside and rng.random() < 0.5:
+            # definitions of the closure MENTION definitions outside it - in a comment, in a string literal - without referring to
+            # them: a mention is not a reference
+            for i in sorted(clos):
+                if rng.random() < 0.6:
+                    o = ns["defs"][rng.choice(outside)]
+                    nm = "%s.%d.%d" % (rng.choice([GN.full_name(ns, o), GN.full_name(ns, o), o["short"]]), o["ver"][0], o["ver"][1])
+                    ns["defs"][i]["extra"] = ns["defs"][i].get("extra", []) + [rng.choice([
+                        "# supersedes %s" % nm, "# %s old_field" % nm, "@assert '%s' != ''" % nm, "@assert \"see %s x\" != '%s'" % (nm, nm), "# @assert %s._extent_ > 0" % nm])]
+            paths = GN.write_namespace(ns, base)
+            ctx.cls("closure-mentions-outside-definitions")
         ctx.mon("baseline")
         base_sig, base_prints, base_opened = perform(pydsdl, ns, base, paths, call)
         if base_sig[0] == "foreign":
